@@ -4,10 +4,14 @@
      add_error (json.rs:980, cbor.rs:1276)            errors.push(ValidationError { json_location = data_location.clone(), reason, .. })
      child validator                                  a fresh validator starts with errors = []; afterwards
                                                       self.errors.append(&mut child.errors)      (json.rs:3047)
-     speculation over alternatives (type choices json.rs:326-333, 1207-1222; group choices json.rs:2934-2950):
+     speculation over alternatives, two equivalent forms in the code:
+       in place (named type choices json.rs:326-333; group choices json.rs:1207-1222):
          let start = self.errors.len();
          for alt in alts { let cur = self.errors.len(); visit(alt);
-                           if self.errors.len() == cur { self.errors.truncate(start); return } }
+                           if self.errors.len() == cur { self.errors.truncate(start)  /  pop down to start;  return } }
+       on a clone (type choices json.rs:1054-1150): the alternative runs on a copy with errors = []; if the copy recorded
+         nothing, the errors accumulated since `start` are popped and the choice returns; otherwise
+         self.errors.extend(copy.errors) and the next alternative is tried.
        - an alternative "succeeds" when it recorded nothing; the errors of the failed alternatives before it are dropped;
        - when every alternative fails, all their errors stay, in order.
      validate() (json.rs:973, cbor.rs:1269)           if !errors.is_empty() { Err(Validation(errors.clone())) } else { Ok(()) } *)
